@@ -57,6 +57,7 @@ pub mod c16;
 pub mod c17;
 pub mod c19;
 pub mod pairs;
+pub mod edges;
 
 pub fn all() -> Vec<Prog> {
     let mut v = Vec::new();
@@ -73,5 +74,6 @@ pub fn all() -> Vec<Prog> {
     v.extend(c17::all());
     v.extend(c19::all());
     v.extend(pairs::all());
+    v.extend(edges::all());
     v
 }
